@@ -1,5 +1,6 @@
 import Failsafe.Exec
 import Failsafe.ExecBodies
+set_option linter.unusedSimpArgs false
 /-!
 # The composition model computes the reference definitions of the regenerated bodies
 
@@ -97,5 +98,86 @@ theorem retryOnFailure_link (pos : Nat) (m : Int) (rl : Bool) (abort : List Cond
   unfold ExecBodies.retryExceeded
   rw [← hd]; congr 1
   by_cases h1 : m = -1 <;> simp [h1]
+
+/-! ## cache layer -/
+
+/-- the cache executor's configuration at a run: the context carries the run's key (a string) or nothing -/
+def cacheCfg (r : Run) (key : String) : CCfg := ⟨key, r.ctxKey.map ExecBodies.Raw.str, some (), some (), some ()⟩
+
+theorem getCacheKey_link (r : Run) (key : String) : ExecBodies.getCacheKey (cacheCfg r key) = cacheKeyOf r key := by
+  unfold ExecBodies.getCacheKey cacheCfg cacheKeyOf
+  cases r.ctxKey <;> rfl
+
+/-- **the model's cache layer is the cache executor's `PreExecute` / `PostExecute`**: a hit is `PreExecute`'s result and nothing
+inside runs; on a miss the inner result goes through `PostExecute`, which stores under the same key rule -/
+theorem cache_link (fuel pos id : Nat) (key : String) (cif : List Nat) (inner : Layer) (r : Run) :
+    applyPolicy fuel pos (.cache id key cif) inner r =
+      (let c := cacheCfg r key
+       match (ExecBodies.cachePre c ⟨(r.w.caches[id]?).getD [], []⟩).1 with
+       | some hit => some (hit, r.emit "ca.onHit" pos)
+       | none =>
+         match inner (r.emit "ca.onMiss" pos) with
+         | none => none
+         | some (res, r2) =>
+           let post := ExecBodies.cachePost c ⟨(r2.w.caches[id]?).getD [], []⟩ cif.length (cif.any (fun p => predicate p res.outcome)) res
+           some (post.1, if post.2.log = [] then r2
+                         else ({ r2 with w := { r2.w with caches := r2.w.caches.set id post.2.entries } }).emit "ca.onCache" pos)) := by
+  simp only [applyPolicy, ExecBodies.cachePre, ExecBodies.cachePost, getCacheKey_link, ExecBodies.cacheGet, ExecBodies.cacheSet,
+    ExecBodies.cOnHit, ExecBodies.cOnMiss, ExecBodies.cOnCache, ExecBodies.CSt.emit, shouldCache]
+  generalize cacheKeyOf r key = kk
+  by_cases hk : kk = ""
+  · subst hk
+    cases hi : inner (r.emit "ca.onMiss" pos) with
+    | none => simp [cacheCfg]
+    | some x => simp [cacheCfg]
+  · have hk' : (kk != "") = true := by simpa using hk
+    cases hf : List.find? (fun x => x.1 == kk) ((r.w.caches[id]?).getD []) with
+    | some kv => obtain ⟨k, v⟩ := kv; simp [hk', hf, cacheCfg]
+    | none =>
+      cases hi : inner (r.emit "ca.onMiss" pos) with
+      | none => simp [hk', hf, cacheCfg]
+      | some x =>
+        obtain ⟨res, r2⟩ := x
+        by_cases hs : ((cif.isEmpty && res.err.isNone) || cif.any (fun p => predicate p res.outcome)) = true
+        · have hs' : ((cif.length == 0 && res.err.isNone) || cif.any (fun p => predicate p res.outcome)) = true := by
+            have : (cif.length == 0) = cif.isEmpty := by cases cif <;> rfl
+            rw [this]; exact hs
+          simp [hk', hf, hs, hs', cacheCfg]
+        · have hs' : ((cif.length == 0 && res.err.isNone) || cif.any (fun p => predicate p res.outcome)) = false := by
+            have : (cif.length == 0) = cif.isEmpty := by cases cif <;> rfl
+            rw [this]; exact Bool.eq_false_iff.2 hs
+          simp [hk', hf, hs, hs', cacheCfg]
+
+/-! ## fallback layer -/
+
+/-- `BaseExecutor.PostExecute` of a policy whose `OnFailure` returns its argument (fallback, breaker): the result it returns -/
+def postOf (h : List Cond) : Unit → PR → PR := fun _ x =>
+  (ExecBodies.postExecute (σ := Unit) (fun er => isFailure h er.outcome) (fun s a => (a, s)) (fun s _ => s) () x).1
+
+theorem postOf_eq (h : List Cond) (x : PR) :
+    postOf h () x = if isFailure h x.outcome then x.withFailure else x.withDone true true := by
+  unfold postOf ExecBodies.postExecute; split <;> rfl
+
+/-- **the model's fallback layer is the fallback executor's `Apply`** around `BaseExecutor.PostExecute`: same result, and the
+fallback function and `OnFallbackExecuted` are called exactly when and in the order the code calls them -/
+theorem fallback_link (fuel pos : Nat) (k : FbKind) (h : List Cond) (inner : Layer) (r r1 : Run) (res : PR)
+    (hin : inner r = some (res, r1)) :
+    let fo : Outcome := match k with | .value v => ⟨v, none⟩ | .error e => ⟨0, some e⟩
+    let r2 := if isFailure h res.outcome then r1.emitSeen "fb.onFailure" pos (r1.seenBy res.outcome)
+              else r1.emitSeen "fb.onSuccess" pos (r1.seenBy res.outcome)
+    let kk := ExecBodies.fallbackApply {} res (postOf h) (fun _ => (r2.isCanc, r2.cancelRes)) fo (isFailure h fo) (some ())
+    ∃ r3, applyPolicy fuel pos (.fallback k h) inner r = some (kk.1, r3) ∧
+      r3.log.map (·.name) = r2.log.map (·.name) ++ kk.2.log.map (fun n => if n = "fn" then "fb.fn" else "fb." ++ n) := by
+  simp only [applyPolicy, hin, ExecBodies.fallbackApply, postOf_eq, ExecBodies.fCallFn, ExecBodies.fOnFallbackExecuted, ExecBodies.FSt.emit]
+  by_cases hf : isFailure h res.outcome = true
+  · simp only [hf, ↓reduceIte, PR.withFailure, Bool.false_eq_true, Option.isSome_some]
+    by_cases hc : (r1.emitSeen "fb.onFailure" pos (r1.seenBy res.outcome)).isCanc = true
+    · simp only [hc, ↓reduceIte]
+      exact ⟨_, rfl, by simp⟩
+    · simp only [hc, ↓reduceIte, Bool.false_eq_true]
+      refine ⟨_, rfl, ?_⟩
+      simp [Run.emitSeen, Run.emit]
+  · simp only [hf, ↓reduceIte, Bool.false_eq_true, PR.withDone]
+    exact ⟨_, rfl, by simp⟩
 
 end Failsafe.Lemmas.ExecBodiesLink
